@@ -26,10 +26,28 @@ pub open spec fn apply_canon(loss: L_Loss, r: real) -> real {
         L_Loss::Arctan(s) => rsqrt((s * s) * ratan((r * r) / (s * s))),
     }
 }
-pub proof fn contract_form_loss(loss: L_Loss, res: RArr, i: int) by(nonlinear_arith)
+/// one lemma per arm: a single non-linear query over all five arms is unstable (an equivalent rewrite of one
+/// arm — a local `let z`, a commuted product — sent it from < 1 s to > 5 min; per arm each takes < 0.1 s)
+proof fn form_softl1(s: real, res: RArr, i: int) by(nonlinear_arith) requires s != 0real
+    ensures (apply(L_Loss::SoftL1(s), res).at)(i) == apply_canon(L_Loss::SoftL1(s), (res.at)(i)), apply(L_Loss::SoftL1(s), res).len == res.len {}
+proof fn form_huber(s: real, res: RArr, i: int) by(nonlinear_arith) requires s != 0real
+    ensures (apply(L_Loss::Huber(s), res).at)(i) == apply_canon(L_Loss::Huber(s), (res.at)(i)), apply(L_Loss::Huber(s), res).len == res.len {}
+proof fn form_cauchy(s: real, res: RArr, i: int) by(nonlinear_arith) requires s != 0real
+    ensures (apply(L_Loss::Cauchy(s), res).at)(i) == apply_canon(L_Loss::Cauchy(s), (res.at)(i)), apply(L_Loss::Cauchy(s), res).len == res.len {}
+proof fn form_arctan(s: real, res: RArr, i: int) by(nonlinear_arith) requires s != 0real
+    ensures (apply(L_Loss::Arctan(s), res).at)(i) == apply_canon(L_Loss::Arctan(s), (res.at)(i)), apply(L_Loss::Arctan(s), res).len == res.len {}
+pub proof fn contract_form_loss(loss: L_Loss, res: RArr, i: int)
     requires scale(loss) != 0real
     ensures apply(loss, res).len == res.len, (apply(loss, res).at)(i) == apply_canon(loss, (res.at)(i))
-{}
+{
+    match loss {
+        L_Loss::Linear => {}
+        L_Loss::SoftL1(s) => form_softl1(s, res, i),
+        L_Loss::Huber(s) => form_huber(s, res, i),
+        L_Loss::Cauchy(s) => form_cauchy(s, res, i),
+        L_Loss::Arctan(s) => form_arctan(s, res, i),
+    }
+}
 
 /// zero residual => zero cost, for every loss function and every non-zero scaling factor
 pub proof fn contract_loss_zero_residual(loss: L_Loss, res: RArr, i: int)
